@@ -44,6 +44,7 @@ const (
 	sigSubActive = "C10/activity-oracle/subscription"
 	sigLivelock  = "C10/livelock/showDeleted-with-hidden-doc"
 	sigDelPanic  = "C10/panic/collection-delete-unfetchable-doc-indexed"
+	sigShowDelOrder = "C10/order-oracle/showDeleted-listing"
 )
 
 // Op is one step of the history.
